@@ -70,6 +70,7 @@ fn main() {
             "C01" => monitors::c01::replay(&args, &case, &mut rep),
             "C02" => monitors::c02::replay(&args, &case, &mut rep),
             "C03" => monitors::c03::replay(&args, &case, &mut rep),
+            "C04" => monitors::c04::replay(&args, &case, &mut rep),
             "C05" => monitors::c05::replay(&case, &mut rep),
             "C06" => monitors::c06::replay(&args, &case, &mut rep),
             "C07" => monitors::c07::replay(&args, &case, &mut rep),
@@ -93,6 +94,7 @@ fn main() {
             "C01" => monitors::c01::run(&args, &mut rep),
             "C02" => monitors::c02::run(&args, &mut rep),
             "C03" => monitors::c03::run(&args, &mut rep),
+            "C04" => monitors::c04::run(&args, &mut rep),
             "C05" => monitors::c05::run(&args, &mut rep),
             "C06" => monitors::c06::run(&args, &mut rep),
             "C07" => monitors::c07::run(&args, &mut rep),
